@@ -342,6 +342,43 @@ def gen_twin(rng, cfg, nsteps, macro=False):
     return g, h.rec
 
 
+def gen_twin_drought(rng, cfg, nsteps, late_every=5):
+    """VBK context runs far ahead of the last BTC reference: after a short start no VTB is DELIVERED any more (the
+    BTC tip of the instances does not advance, VBK finalization stays bounded by the lowest VBK height that
+    references it), but VTBs keep being CREATED for then-recent VBK blocks; at the end they arrive late, in
+    creation order, each in its own ALT block - their containing VBK blocks lie far below the VBK tip."""
+    g = StoreWorldGen(rng, cfg)
+    h = TwinHistory(g, cfg.get("alt_maxreorg", 8))
+    r = rng
+    vs = cfg.get("vbk_settle", 400)
+    stash = []
+    for i in range(nsteps):
+        a = g.honest_block(h.best, n_vtb=(None if i < 3 else 0), empty_chance=(1, 6))
+        h.show(a, order="inorder")
+        h.on("set", a)
+        h.on("payout", a)
+        h.best = a
+        if r.chance(1, 6):
+            # a short fork without VTBs, compared and left behind
+            f = g.honest_block(h.chain_back(h.best, r.range(1, 4)), n_vtb=0)
+            h.show(f)
+            h.on("cmp", f)
+        if i >= 3 and i % late_every == 0:
+            known = sorted(g.alt[h.best]["kv"], key=lambda v: int(v[1:]))
+            ch = g.vbk[g.vtip]["height"] + 1
+            pool = [v for v in known if ch - g.vbk[v]["height"] <= min(vs, 8)]
+            if pool:
+                stash.append(g.make_vtb(r.choice(pool), g.best_known_btc(h.best)))
+    for w in stash:
+        a = g.new_alt(h.best)
+        g.set_pd(a, vtbs=[w])
+        h.show(a, order="inorder")
+        h.on("set", a)
+        h.on("payout", a)
+        h.best = a
+    return g, h.rec
+
+
 def emit_twin(sc, ops, mode, tag, save_every=1, check_every=5, corr_every=0):
     """F = finalizing instance, N = never finalizing (cfg of N: see C09.py, N is created by `instn`).
     mode: 'finx'   F is a plain instance: public finalizeBlocks() after EVERY step, saveTrees only every
